@@ -107,6 +107,9 @@ class PrintStatementRule(MultiLanguageLintRule):  # thailint: ignore[srp]
         if "print-statements" in metadata:
             return load_linter_config(context, "print-statements", PrintStatementConfig)
 
+        if "improper_logging" in metadata:
+            return load_linter_config(context, "improper_logging", PrintStatementConfig)
+
         return None
 
     def _is_file_ignored(self, context: BaseLintContext, config: PrintStatementConfig) -> bool:
